@@ -44,6 +44,8 @@ TABLES = [
     [['k', 'v1', 'x'], ['m', 'v2', 'y'], ['k', 'v1', 'z']],
     [['k', 'a,b', 'q"r'], ['m', ' lead', 'trail '], ['n', '', 'é€']],
     [['k', 'one', 'two']],
+    [['k'], [''], ['m'], ['']],                                                                   # one column, empty cells (blank lines in the file)
+    [['k', 'v1', 'x'] + ['w%d' % i for i in range(4, 11)] + ['"q"', 'a"b'], ['m', 'v2', 'y'] + ['u%d' % i for i in range(4, 11)] + ['plain', '""']],     # 12 columns
 ]
 SPECIAL = {'nl': [['k', 'l1\nl2', 'x'], ['m', 'plain', 'y']], 'tab': [['k', 'p\tq', 'x'], ['m', 'plain', 'y']], 'latin': [['k', 'caf\xe9', '\xff\xe0'], ['m', 'plain', '\xa0x']]}
 B = [['k', 'J1'], ['m', 'J2'], ['k', 'J3']]
@@ -57,10 +59,15 @@ def render(q, join_id='b'):
     return refql.render(q, join_table_id=join_id)
 
 
+def names_for(A):
+    w = len(A[0]) if A else 3
+    return (NAMES + ['n%d' % i for i in range(4, w + 1)])[:w]
+
+
 def expected(q, A, hdr):
     if q.get('where') == ('raw_parse_error',):
         return refql.Outcome(error=('parsing', None))
-    return refql.evaluate(q, A, B if q.get('join') else None, NAMES if hdr else None, BNAMES if (hdr and q.get('join')) else None)
+    return refql.evaluate(q, A, B if q.get('join') else None, names_for(A) if hdr else None, BNAMES if (hdr and q.get('join')) else None)
 
 
 def strtab(records):
@@ -112,7 +119,7 @@ def run_api_entry_points(res, q, A, hdr, exp, scratch):
     rb = tree.load()
     eng = tree.engine()
     text = render(q)
-    an = NAMES if hdr else None
+    an = names_for(A) if hdr else None
     bn = BNAMES if hdr else None
     useB = B if q.get('join') else None
     # E1 query_table
@@ -178,7 +185,7 @@ def run_api_entry_points(res, q, A, hdr, exp, scratch):
         res.violation('finish-not-called-once', {'entry_point': 'custom', 'query': text}, 1, mw.finished)
     # E7 pandas
     import pandas as pd
-    df = pd.DataFrame(A, columns=NAMES) if hdr else pd.DataFrame(A)
+    df = pd.DataFrame(A, columns=names_for(A)) if hdr else pd.DataFrame(A)
     jdf = (pd.DataFrame(B, columns=BNAMES) if hdr else pd.DataFrame(B)) if useB else None
     recs, cols, err = None, None, None
     try:
@@ -196,7 +203,7 @@ def run_api_entry_points(res, q, A, hdr, exp, scratch):
     # E4 query_csv on files + E8 sqlite (header mode only)
     p1, p2, po = [os.path.join(scratch, n) for n in ('t1.csv', 't2.csv', 'out.csv')]
     with open(p1, 'w', newline='', encoding='utf-8') as f:
-        f.write(refcsv.ref_write(([NAMES] if hdr else []) + A, ',', 'quoted_rfc'))
+        f.write(refcsv.ref_write(([names_for(A)] if hdr else []) + A, ',', 'quoted_rfc'))
     with open(p2, 'w', newline='', encoding='utf-8') as f:
         f.write(refcsv.ref_write(([BNAMES] if hdr else []) + B, ',', 'quoted_rfc'))
     tcsv = render(q, 't2.csv')
@@ -215,8 +222,13 @@ def run_api_entry_points(res, q, A, hdr, exp, scratch):
     # the same files with comment lines (before the header, between and after the records), read with comment_prefix
     def commented(rows):
         body = refcsv.ref_write(rows, ',', 'quoted_rfc')
-        return '#c1\n' + ''.join(l + '\n#c\n' for l in body.split('\n') if l != '') if all('\n' not in c for r in rows for c in r) else None
-    c1, c2 = commented(([NAMES] if hdr else []) + A), commented(([BNAMES] if hdr else []) + B)
+        if not all('\n' not in c for r in rows for c in r):
+            return None
+        lines = body.split('\n')
+        if lines and lines[-1] == '':
+            lines.pop()          # only the piece after the final line break; an empty line in the middle is a record with one empty field
+        return '#c1\n' + ''.join(l + '\n#c\n' for l in lines)
+    c1, c2 = commented(([names_for(A)] if hdr else []) + A), commented(([BNAMES] if hdr else []) + B)
     if c1 is not None and c2 is not None:
         with open(p1, 'w', newline='', encoding='utf-8') as f:
             f.write(c1)
@@ -237,9 +249,9 @@ def run_api_entry_points(res, q, A, hdr, exp, scratch):
     if hdr:
         from rbql import rbql_sqlite
         conn = sqlite3.connect(':memory:')
-        conn.execute('CREATE TABLE t (name TEXT, val TEXT, third TEXT)')
+        conn.execute('CREATE TABLE t (%s)' % ', '.join('%s TEXT' % n for n in an))
         conn.execute('CREATE TABLE b (jk TEXT, jv TEXT)')
-        conn.executemany('INSERT INTO t VALUES (?, ?, ?)', A)
+        conn.executemany('INSERT INTO t VALUES (%s)' % ', '.join('?' for _ in an), A)
         conn.executemany('INSERT INTO b VALUES (?, ?)', B)
         err, recs, gh = None, None, None
         try:
@@ -312,7 +324,7 @@ def run_cli_inprocess(res, q, A, hdr, exp, cfg, scratch, via_stdin):
     ddlm, dpol = cfg[3]
     p1, p2, po = [os.path.join(scratch, n) for n in ('t1.csv', 't2.csv', 'out.csv')]
     with open(p1, 'w', newline='', encoding=cfg_enc(cfg)) as f:
-        f.write(refcsv.ref_write(([NAMES] if hdr else []) + A, ddlm, dpol))
+        f.write(refcsv.ref_write(([names_for(A)] if hdr else []) + A, ddlm, dpol))
     with open(p2, 'w', newline='', encoding=cfg_enc(cfg)) as f:
         f.write(refcsv.ref_write(([BNAMES] if hdr else []) + B, ddlm, dpol))
     text = render(q, p2)
@@ -360,7 +372,7 @@ def run_cli_subprocess(res, q, A, hdr, exp, cfg, scratch, via_stdin):
     ddlm, dpol = cfg[3]
     p1, p2, po = [os.path.join(scratch, n) for n in ('t1.csv', 't2.csv', 'out.csv')]
     with open(p1, 'w', newline='', encoding=cfg_enc(cfg)) as f:
-        f.write(refcsv.ref_write(([NAMES] if hdr else []) + A, ddlm, dpol))
+        f.write(refcsv.ref_write(([names_for(A)] if hdr else []) + A, ddlm, dpol))
     with open(p2, 'w', newline='', encoding=cfg_enc(cfg)) as f:
         f.write(refcsv.ref_write(([BNAMES] if hdr else []) + B, ddlm, dpol))
     text = render(q, p2)
@@ -404,7 +416,8 @@ def cases(sh):
                 out.append((q, A, hdr))
     for q in named:
         for A in TABLES:
-            out.append((q, A, True))
+            if len(A[0]) >= 3:
+                out.append((q, A, True))
     return out
 
 
@@ -436,7 +449,7 @@ def run_shard(sh):
             if idx % sh['nshards'] != sh['shard']:
                 continue
             exp = expected(q, A, hdr)
-            if exp.error is None and any(v is None or isinstance(v, (list, tuple)) for r in exp.records for v in r):
+            if exp.error is None and (any(v is None or isinstance(v, (list, tuple)) for r in exp.records for v in r) or any(len(r) == 0 for r in exp.records)):
                 res.feat('skipped_non_string_results')      # the quantifier: results over string cells only (None / list values are rendered differently by each backend by design)
                 continue
             res.states += 1
